@@ -32,6 +32,7 @@ import numpy as np  # noqa: E402
 import xgi  # noqa: E402
 import xgi.drawing.layout as L  # noqa: E402
 
+from ..core import unlisted_violations  # noqa: E402
 from ..core import TRUSTED_COMMON, VERIF, build_and_audit, dec_id, enc_id, finish  # noqa: E402
 from ..fn import all_small_hypergraphs, conclude, gen_hypergraph, run_fn  # noqa: E402
 
@@ -826,7 +827,7 @@ def replay(ctx, path):
     c = j["case"] if "case" in j else j
     build_and_audit(ctx, "XgiModel.Props.C20", ["XgiModel.C20.Drive"])
     dis = run_cases(ctx, c if isinstance(c, list) else [c])
-    if dis and not ctx.violations:
+    if dis and not unlisted_violations(ctx):
         ctx.violation("model-tie", "unproven", {"broken": ctx.broken, "example": ctx.extra.get("disagreements", [])[:1]},
                       detail="; ".join(ctx.broken)[:500], kind="unproven", broken=ctx.broken)
     return finish(ctx, trusted_base=TRUSTED)
